@@ -597,7 +597,7 @@ func replayWrite(judge func(WriteCase, []byte) string) func(c *Ctx, v *Violation
 
 func init() {
 	Register(&Monitor{ID: "C01", Run: func(c *Ctx) {
-		c.Rule = "seeded boundary-biased value streams written through the Writer API in 4 modes (text, pretty, pretty+quiet, binary) and read back by ion-go's Reader; the same streams also through writers constructed with one or two shared symbol tables (readers given the catalog) and/or finished in several batches (Finish after every 1..3 top-level values); plus a deterministic boundary grid (incl. nested payloads whose encoded size crosses 14, 2^7, 2^14 and 2^21, and streams that resemble symbol tables and version markers without being any). Non-trivial: stream has >=2 values or a container and carries a boundary/reserved-text/annotation/typed-null feature; distinct by (mode, canonical model text)."
+		c.Rule = "seeded boundary-biased value streams written through the Writer API in 4 modes (text, pretty, pretty+quiet, binary) and read back by ion-go's Reader; the same streams also through writers constructed with one or two shared symbol tables (readers given the catalog) and/or finished in several batches (Finish after every 1..3 top-level values), a third of them with the system symbol table itself listed among the tables (first or further down); arguments that stay the caller's (lob sub-slices of one buffer, annotation slices recycled or with spare capacity, a big.Int changed in place after the call, one token object re-used); WriteSymbolFromString for text and for ids ($n); plus a deterministic boundary grid (integers of 13..5000 bytes, the same $n string as id and as text on one writer, nested payloads whose encoded size crosses 14, 2^7, 2^14 and 2^21, and streams that resemble symbol tables and version markers without being any). Non-trivial: stream has >=2 values or a container and carries a boundary/reserved-text/annotation/typed-null feature; distinct by (mode, canonical model text)."
 		c.Assume("model.Diff implements Ion data-model equivalence; the driver makes only legal Writer calls")
 		runWriteMonitor(c, "roundtrip", judgeC01)
 	}, Replay: replayWrite(judgeC01)})
